@@ -36,7 +36,7 @@ text = ["## 10. Seeded changes (realistic property-breaking edits) and what catc
         "`tools/seedall.sh` applies each to a scratch worktree and runs the quick checks of its property",
         "with a frozen copy of the verifier and ledgers; the outcome is stored in `seeded/<id>/result.json`.",
         "", "%d of %d caught at the commit of the last run." % (det, len(rows)), "",
-        "Five rounds (33, 20, 20, 36 and 24 changes; later rounds were told which functions earlier",
+        "Six rounds (33, 20, 20, 36, 24 and 7 changes; later rounds were told which functions earlier",
         "rounds had used). Changes that were first MISSED and what was strengthened because of them",
         "(every one is caught now): C15-3 second fork gate under contract; C17-3 and C01-5 `Import`",
         "under contract (found two defects); C04-4 scripts issued from a tracer's QueueEnd hook; C06-4",
@@ -53,10 +53,12 @@ text = ["## 10. Seeded changes (realistic property-breaking edits) and what catc
         "context-bound multi-state When; C01-8 shared copy of the state names kept consistent; C03-8 Can*",
         "on the removal of inactive states; C02-7 / C02-8 emitEvents and setupAccepted also under C02; C14-7",
         "TracerDetach under contract and detach cases in the tracer stand-in; C05-7 negotiation family also",
-        "under C05. Earlier",
+        "under C05; C16-6 and C16-8 the parse step `hParseMsg` and the telemetry tracer's record anchor under",
+        "contract; C04-7 `EvRemove` under contract; C19-7 `State.Clone` keeps nil vs. empty, `StateSet` family",
+        "under contract (section 9.6). Earlier",
         "rounds: see 8.2 (loop-head havoc found through C14-1) and the `check_props` entries of the",
         "seeds that a neighbouring property's check catches (C01-4 by C02, C14-4 by C17). Still missed,",
-        "with the reason in the table: C15-2, C15-5, C16-6, C17-4 (C12-8 was missed until the race-detector",
+        "with the reason in the table: C15-2, C15-5, C17-4 (C12-8 was missed until the race-detector",
         "program family for the network machine was added).", "",
         "| seed | change | outcome of the check |", "|---|---|---|"] + rows + [""]
 s = open(V + "/DESIGN.md").read()
